@@ -51,6 +51,9 @@ def judge(d):
             out.append(("selection:%s" % want, "selection table returns %s %s for options (geometry %d, problem %d, alpha %d, beta %d), "
                         "expected %s" % (what, have, g, p, a, b, want)))
     name = d["src"]
+    if d.get("impure", "-") != "-":
+        out.append(("impure:%s" % d["impure"], "the input function %s of this class set (%s / %s / %s / %s) returns different values at the same "
+                    "point depending on which points were evaluated before" % (d["impure"], d["src"], d["geo"], d["coef"], d["bc"])))
     if float(d["jac"]) > TOL_JAC:
         out.append(("jacobian-theta:%s" % d["geo"], "%s: dFx_dt/dFy_dt differ from the theta-derivative of the mapping (Fx, Fy) by %.3g "
                     "(relative) at %s" % (d["geo"], float(d["jac"]), d["jacAt"])))
